@@ -2,10 +2,10 @@ package main
 
 import (
 	"fmt"
-	"hash/fnv"
 	"go/constant"
 	"go/token"
 	"go/types"
+	"hash/fnv"
 	"strings"
 
 	"golang.org/x/tools/go/ssa"
